@@ -65,7 +65,10 @@ type gen struct {
 	r       *coqfmt.Rng
 	src     int
 	next    int
-	shorts  int             // pflag shorthands handed out
+	shorts  int // pflag shorthands handed out
+	nsCur   int // id of the current namespace
+	nsNext  int
+	recs    []leafRec       // the plain leaves generated so far
 	ns      map[string]bool // shared alias values used in the current namespace (embedded structs share their parent's)
 	targets []target
 	leaves  [][]string // paths of all leaves (for the independent fields)
@@ -76,6 +79,40 @@ type gen struct {
 }
 
 func (g *gen) name() string { g.next++; return fmt.Sprintf("F%d", g.next) }
+
+type leafRec struct {
+	name string
+	tag  reflect.StructTag
+	typ  reflect.Type
+	ns   int
+}
+
+// reuse picks (one time in eight) a leaf of ANOTHER namespace whose name and
+// tags can be repeated here: no source-specific names (they are absolute), no
+// shorthand, its general alias value not yet used in this namespace.
+func (g *gen) reuse(underAlias bool) (leafRec, bool) {
+	if underAlias || len(g.recs) == 0 || !g.r.Chance(1, 8) {
+		return leafRec{}, false
+	}
+	rec := g.recs[g.r.Intn(len(g.recs))]
+	tag := string(rec.tag)
+	if rec.ns == g.nsCur || g.ns["name:"+rec.name] || strings.Contains(tag, "dialspflagshort") {
+		return leafRec{}, false
+	}
+	if fam := families[g.src]; len(fam) > 1 && strings.Contains(tag, fam[1]) {
+		return leafRec{}, false
+	}
+	for _, v := range sharedAliases {
+		if strings.Contains(tag, `dialsalias:"`+v+`"`) {
+			if g.ns[v] {
+				return leafRec{}, false
+			}
+			g.ns[v] = true
+		}
+	}
+	g.ns["name:"+rec.name] = true
+	return rec, true
+}
 
 var sharedAliases = []string{"timeout", "deadline", "legacy", "addr"}
 
@@ -139,10 +176,12 @@ func (g *gen) strct(depth int, path []string, underAlias bool, collect bool) ref
 		case depth < 3 && x < 30:
 			aliased := !underAlias && r.Chance(1, 3)
 			mark := len(g.leaves)
-			saveNS := g.ns
+			saveNS, saveCur := g.ns, g.nsCur
 			g.ns = map[string]bool{} // a named nested struct opens a new namespace
+			g.nsNext++
+			g.nsCur = g.nsNext
 			st := g.strct(depth+1, p, underAlias || aliased, collect)
-			g.ns = saveNS
+			g.ns, g.nsCur = saveNS, saveCur
 			t := st
 			if r.Chance(1, 2) {
 				t = reflect.PtrTo(st)
@@ -168,6 +207,23 @@ func (g *gen) strct(depth int, path []string, underAlias bool, collect bool) ref
 			lt := leafTypes[r.Intn(len(leafTypes))]
 			sf := reflect.StructField{Name: name, Type: lt}
 			innerAl := false
+			if rec, ok := g.reuse(underAlias); ok {
+				// the SAME field name with the SAME tags as a field of another nested
+				// struct, but of another type (Read.Timeout / Write.Timeout)
+				name, p = rec.name, append(append([]string{}, path...), rec.name)
+				for lt == rec.typ {
+					lt = leafTypes[r.Intn(len(leafTypes))]
+				}
+				sf = reflect.StructField{Name: name, Type: lt, Tag: rec.tag}
+				if strings.Contains(string(rec.tag), `dialsalias:"`) && collect {
+					g.targets = append(g.targets, target{path: p, leaf: lt})
+				}
+				fields = append(fields, sf)
+				g.leaves = append(g.leaves, p)
+				g.leafT = append(g.leafT, lt)
+				g.leafAl = append(g.leafAl, false)
+				continue
+			}
 			if !underAlias && r.Chance(1, 2) {
 				sf.Tag = reflect.StructTag(g.aliasTags(name, true))
 				if collect {
@@ -209,6 +265,7 @@ func (g *gen) strct(depth int, path []string, underAlias bool, collect bool) ref
 			g.leaves = append(g.leaves, p)
 			g.leafT = append(g.leafT, lt)
 			g.leafAl = append(g.leafAl, innerAl)
+			g.recs = append(g.recs, leafRec{name, sf.Tag, lt, g.nsCur})
 		}
 	}
 	return reflect.StructOf(fields)
@@ -570,6 +627,10 @@ func run(raw json.RawMessage) driver.Result {
 				name = sf.Tag.Get("dials")
 			}
 			args = append(args, dash+name+"="+s.text)
+			if ft := filled.Field(i).Type(); ft != s.val.Type() && ft != reflect.PtrTo(s.val.Type()) {
+				direct = append(direct, fmt.Sprintf("translated field %s has type %s for a leaf of type %s", sf.Name, ft, s.val.Type()))
+				continue
+			}
 			if filled.Field(i).Kind() == reflect.Ptr {
 				p := reflect.New(s.val.Type())
 				p.Elem().Set(s.val)
@@ -822,7 +883,7 @@ func gen_(r *coqfmt.Rng, n int, tier string) []json.RawMessage {
 func main() {
 	driver.Main(driver.Engine{
 		Prop: "C14", CoqImport: "Dials.Check.C14Check", CoqRun: "run_cases",
-		Rule: "random config types (leaves of 14 kinds: 11 scalar kinds incl. durations and named scalars, []string, []int, the set map[string]struct{}; alias values partly from a small everyday pool shared between DIFFERENT nested structs; nested value/pointer structs to depth 3, embedded structs) with dialsalias tags; every supplied value is the Go zero value of its type (false, 0, \"\", 0s) with probability 1/3 (every non-empty subset of {dialsalias, dialsenvalias / dialsflagalias / dialspflagalias} on leaves - incl. ONLY the source-specific alias - each of dials and the source-specific primary tag present or not, dialsdesc; for the pflag source one leaf in three, aliased or not, carries a one-letter dialspflagshort) on random leaf and struct-typed fields at any depth, a leaf below an aliased struct may carry an alias of its own (then outer alias + inner alias is a fourth name, used half of the time), one plain leaf in six carries an alias tag of ANOTHER source only; up to 3 aliased targets per type, ALL 4^k neither/primary/alias/both patterns; other leaves set independently with probability 1/3; each type through one of: env source (with and without prefix), std flag source, pflag source, JSON decoder wrapped with ez's alias/reformat/set-slice manglers, or (four static config types with aliases on leaves, struct-typed, pointer and embedded fields) a JSON config FILE read through the real ez.JSONConfigEnvFlag with Params drawn from DisableAutoSetToSlice x FileFieldNameEncoder in {nil, nil, lower_snake, kebab}, its view compared with the alias-wrapped decoder's result; non-trivial: at least one target and a pattern other than all-neither; distinct = distinct (type state, source, pattern)",
+		Rule: "random config types (leaves of 14 kinds: 11 scalar kinds incl. durations and named scalars, []string, []int, the set map[string]struct{}; alias values partly from a small everyday pool shared between DIFFERENT nested structs; one leaf in eight repeats name and tags of a leaf of another nested struct with another type; nested value/pointer structs to depth 3, embedded structs) with dialsalias tags; every supplied value is the Go zero value of its type (false, 0, \"\", 0s) with probability 1/3 (every non-empty subset of {dialsalias, dialsenvalias / dialsflagalias / dialspflagalias} on leaves - incl. ONLY the source-specific alias - each of dials and the source-specific primary tag present or not, dialsdesc; for the pflag source one leaf in three, aliased or not, carries a one-letter dialspflagshort) on random leaf and struct-typed fields at any depth, a leaf below an aliased struct may carry an alias of its own (then outer alias + inner alias is a fourth name, used half of the time), one plain leaf in six carries an alias tag of ANOTHER source only; up to 3 aliased targets per type, ALL 4^k neither/primary/alias/both patterns; other leaves set independently with probability 1/3; each type through one of: env source (with and without prefix), std flag source, pflag source, JSON decoder wrapped with ez's alias/reformat/set-slice manglers, or (four static config types with aliases on leaves, struct-typed, pointer and embedded fields) a JSON config FILE read through the real ez.JSONConfigEnvFlag with Params drawn from DisableAutoSetToSlice x FileFieldNameEncoder in {nil, nil, lower_snake, kebab}, its view compared with the alias-wrapped decoder's result; non-trivial: at least one target and a pattern other than all-neither; distinct = distinct (type state, source, pattern)",
 		Gen:  gen_, Run: run,
 	})
 }
